@@ -199,6 +199,12 @@ def r47_definite_reset(ctx):
                     ctx.bad(R, n, f, 'class-level state of %s is written only where initialize() resets it' % cls.name,
                             'store to %s.%s outside initialize() and never reset' % (cls.name, attr))
     ctx.floor(R, 'class attributes loaded', total, 30)
+    # the consumers of the one conditionally assigned public attribute (epsilon) outside the classes: the rules
+    from .quota import epsilon_reads
+    from .values import _forced_arithmetic
+    from .common import rules as _rules
+    for ri in _rules(ctx):
+        epsilon_reads(ctx, R, ri, _forced_arithmetic(ctx, ri))
 
 
 def _unmangle(cls, attr):
